@@ -21,6 +21,24 @@ def gen_lib(repo, only=None, probe=False):
     return em
 
 
+def sources_of(unit):
+    """repo-relative source files of a unit (for locating helper functions)"""
+    sys.path.insert(0, VERIF)
+    if unit == 'lib':
+        from contracts import lib as m
+    else:
+        from contracts import tools as m
+    out = []
+
+    def walk(mods):
+        for md in mods:
+            if md.src:
+                out.append(md.src)
+            walk([i for i in md.items if isinstance(i, Module)])
+    walk(m.modules('/repo'))
+    return out
+
+
 def gen_tools(repo, probe=False):
     sys.path.insert(0, VERIF)
     from contracts import tools
